@@ -8,6 +8,7 @@ import (
 	"fmt"
 	"os"
 	"path/filepath"
+	"runtime"
 	"runtime/debug"
 	"sort"
 	"strconv"
@@ -280,6 +281,22 @@ func envU64(name string, def uint64) uint64 {
 // of kind "panic" (panics on other goroutines kill the process; the orchestrator
 // handles that by isolated re-execution).
 func safeExec[C any](w World[C], c C, env *Env) (out *Outcome) {
+	// watchdog: an execution that does not end is a hang of the code under test or
+	// of the harness; dump every goroutine and let the orchestrator re-run the seed
+	// alone (a hang that reproduces is reported, one that does not is recorded).
+	limit := time.Duration(envInt("VERIF_RUN_TIMEOUT_S", 150)) * time.Second
+	doneCh := make(chan struct{})
+	defer close(doneCh)
+	go func() {
+		select {
+		case <-doneCh:
+		case <-time.After(limit):
+			buf := make([]byte, 4<<20)
+			n := runtime.Stack(buf, true)
+			fmt.Fprintf(os.Stderr, "\nVERIF-WATCHDOG: execution exceeded %v; goroutine dump follows\n%s\n", limit, buf[:n])
+			os.Exit(3)
+		}
+	}()
 	defer func() {
 		if r := recover(); r != nil {
 			st := string(debug.Stack())
